@@ -115,10 +115,12 @@ OnEncode(ev) ==
 
 \* ev.bid = 1: this consumer has refused an earlier batch of the stream (its readers are stuck on that
 \* refusal); it must still refuse recognisably and never panic, but is no longer compared with the others
+\* ev.bid = 2: moreover this batch continues a sub-stream of a batch the consumer refused, i.e. an IPC stream with
+\* missing messages (outside the domain, as the gapped sub-streams of C07): a panic there is not judged
 OnLadder(ev) ==
-  /\ ladder' = IF ev.bid = 1 /\ ev.oc = "ok" THEN ladder ELSE Append(ladder, ev)
+  /\ ladder' = IF ev.bid >= 1 /\ ev.oc = "ok" THEN ladder ELSE Append(ladder, ev)
   /\ viol' = viol
-       \cup If(ev.oc = "panic", V("C14", "PanicUnderMemoryLimit", ev))
+       \cup If(ev.oc = "panic" /\ ev.bid # 2, V("C14", "PanicUnderMemoryLimit", ev))
        \cup If(ev.b > ev.a, V("C14", "ReportedInUseExceedsLimit", ev))
        \cup If(ev.bid = 0 /\ ev.oc # "ok" /\ \E j \in DOMAIN ladder : ladder[j].bid = 0 /\ ladder[j].oc = "ok" /\ ladder[j].a <= ev.a,
                V("C14", "RaisingLimitRefusesDecodableBatch", ev))
